@@ -115,7 +115,7 @@ def run_chunk(run, chunk: int):
         done = attempts = 0
         while done < N_CONFIGS[run.tier] and attempts < 4 * N_CONFIGS[run.tier]:
             attempts += 1
-            case = rw.config_case(g, attempts, fc_share=0.15)
+            case = rw.config_case(g, attempts, fc_share=0.15, very_long=True)
             nodes = case["nodes"]
             try:
                 orig = ids_of(build(nodes))
